@@ -69,5 +69,10 @@ claim("C11", "proof",
       "DESIGN.md §9 C11",
       "Lean kernel; gRPC/protobuf trusted (ordered reliable streams, status+details transport); extractor + harness trusted",
       "Lean 4 proof (finite tables by decide, chunking by induction) + skeleton tie + differential replay through a real gRPC server")
-for p in ["C04","C15","C17"]:
+claim("C17", "proof",
+      "On the directory model (directory = entry count + registered flag): C17_offer (after dir.Get every root has a registered directory below the limit), candidates_below, C17_bound_put / C17_bound_del / C17_bound_reopen (no directory ever exceeds the limit under writes to legal candidates with rotation, deletions, reopening; sequential), C17_reuse (a directory that loses an entry is registered again). Placement (root/uuid-directory/file) and the correspondence of entry counts are checked by walking the real storage roots after every step of long histories (rotation is forced: runs where no directory reaches the limit are rejected); the observed random directory choice is a model input that must be a legal candidate.",
+      "DESIGN.md §9 C17",
+      "Lean kernel; directories abstracted to counts (interchangeable); harness walk + extractor trusted; shuffle (math/rand) not modelled",
+      "Lean 4 proof (invariant over the directory model) + skeleton tie + differential walk of the real storage roots")
+for p in ["C04","C15"]:
     na(p, PENDING)
